@@ -105,6 +105,7 @@ func c21SentinelCheck(c *stat.Collector, rt stat.Fataler, p plan, rec *runRec) (
 func TestVerif_C21_SentinelReplicas(t *testing.T) {
 	c := stat.For("C21", "sentinel-"+queueLabel()).Rule("sentinel client in a synctest bubble, 1-3 sentinels (some with a wrong initial view), 2-4 data nodes with fixed roles; client with a generated SendToReplicas predicate (always, never, read-only names, name set, key parity), ReplicaOnly, or neither; +sdown/-sdown/+slave/+reboot events (replica re-selection), connection kills, refused dials; traffic Do, DoMulti(2-4), DoCache, DoMultiCache, DoStream, DoMultiStream, blocking, Receive with unique keys. Oracle from the per-node log: a command received by a node other than the master requires ReplicaOnly or the predicate true for it (for every member of its batch). Non-trivial = a received batch with mixed predicate values, or ReplicaOnly traffic on a replica")
 	defer c.Flush()
+	defer singleP()()
 	rapid.Check(t, func(rt *rapid.T) {
 		p := genC21SentinelPlan(rt)
 		saveCase("c21sen", p)
@@ -217,6 +218,7 @@ func c21StandaloneCheck(c *stat.Collector, rt stat.Fataler, p plan, rec *runRec)
 func TestVerif_C21_StandaloneReplicas(t *testing.T) {
 	c := stat.For("C21", "standalone-"+queueLabel()).Rule("standalone client with 1-3 replica addresses in a synctest bubble; generated SendToReplicas predicate (always, never, read-only names, name set, key parity), optional ReadNodeSelector returning per-slot generated indices (negative, 0, valid, beyond the list, len, len+1, len+5) with and without EnableReplicaAZInfo (without it the candidate list is empty), connection kills; traffic Do, DoMulti(2-4), DoCache, DoMultiCache, DoStream, DoMultiStream, blocking, Receive with unique keys. Oracle from the per-node log: a command received by a replica address requires the predicate true for it (for every member of its batch); when the selector's answer for the call is outside the candidate list the command must be on the primary; no call panics. Non-trivial = a received batch with mixed predicate values or an out-of-range selector answer")
 	defer c.Flush()
+	defer singleP()()
 	rapid.Check(t, func(rt *rapid.T) {
 		p := genC21StandalonePlan(rt)
 		saveCase("c21sta", p)
